@@ -229,9 +229,11 @@ class Sim(object):
                 env[st['x']] = ('ret', self.ev(env, st['e']))
             elif op == 'append':
                 env[st['x']][1].append(self.ev(env, st['e']))     # in-place mutation of a value the program holds
-            elif op in ('discard', 'force'):
+            elif op in ('discard', 'force', 'enable', 'disable'):
                 if decorated:
-                    fn = tr.discard_recording if op == 'discard' else tr.force_sample_recording
+                    # (`enable` / `disable`: the service's kill switch flipped while the operation runs)
+                    fn = {'discard': tr.discard_recording, 'force': tr.force_sample_recording,
+                          'enable': tr.enable_recording, 'disable': tr.disable_recording}[op]
                     if st.get('thread'):
                         # the operation delegates the call to a helper thread and waits for it (no concurrency: the main
                         # thread is blocked in join): the recorder-wide decision must not depend on which thread asked
